@@ -2,6 +2,8 @@
   Model/Template.lean — C16. Mirrors /repo/core/src/template.rs:
     * `Template` = the slice of `Part`s behind any of its three representations
       (`Literal([Part; 1])`, `Parts(&[Part])`, `Owned(Box<[Part]>)`, `TemplateKind::parts` :51-60)
+    * `Render::write` / `Part::write` and the `Write` trait defaults                          (:306-319, :334-403, :570-591)
+    * `to_owned` / `by_ref` / `literal` conversions                                           (:91-93, :118-125, :538-551, :706-759)
     * `PartialEq for Template` — the two-cursor, fragment-split-insensitive comparison        (:180-273)
       (after `fix: compare template text fragments as bytes and skip empty fragments in Template equality`)
 
@@ -105,5 +107,98 @@ def norm : List Part → List Seg
   | [] => []
   | .text t :: ps => consText t (norm ps)
   | .hole l _ :: ps => .hole l :: norm ps
+
+/-! ### Conversions (all rebuild the parts one by one; Lemma: identities) -/
+
+/-- `Part::to_owned` (:744-758): text → text(value.to_owned()), hole → hole(label.to_owned(), formatter.clone()). -/
+def Part.toOwned : Part → Part
+  | .text t => .text t
+  | .hole l f => .hole l f
+
+/-- `Template::to_owned` (:706-719). -/
+def toOwned (ps : List Part) : List Part := ps.map Part.toOwned
+
+/-- `Part::by_ref` (:538-551). -/
+def Part.byRef : Part → Part
+  | .text t => .text t
+  | .hole l f => .hole l f
+
+/-- `Template::by_ref` (:118-125): the `Literal` kind rebuilds its one part, the other two kinds re-borrow the slice. -/
+def byRef (ps : List Part) : List Part := ps.map Part.byRef
+
+/-- `Template::literal` / `literal_ref` (:91-93, :111-113). -/
+def literal (t : List UInt8) : List Part := [.text t]
+
+/-! ### Rendering -/
+
+/-- Property values the correspondence samples (`emit::Value` from `&str`, `i64`, `bool`). -/
+inductive Val where
+  | str (s : List UInt8)
+  | int (i : Int)
+  | bool (b : Bool)
+  deriving Repr, DecidableEq, Inhabited
+
+/-- `Display for Value` on these kinds. -/
+def Val.display : Val → List UInt8
+  | .str s => s
+  | .int i => (toString i).toUTF8.toList
+  | .bool b => (toString b).toUTF8.toList
+
+/-- `Props::get(label)`: the first pair whose key equals the label (first value wins). -/
+def lookupFirst (label : List UInt8) : List (List UInt8 × Val) → Option Val
+  | [] => none
+  | (k, v) :: rest => if k = label then some v else lookupFirst label rest
+
+/-- What a `template::Write` implementation is to `Render::write`: four `&mut self` callbacks on some state; each
+    returns the state it leaves behind and whether it returned `Ok(())` (`false` = `Err(fmt::Error)`).
+    `fmtTable f v` is the text `Formatter::apply` of formatter number `f` produces for `v`. -/
+structure Writer (σ : Type) where
+  writeText : σ → List UInt8 → σ × Bool
+  writeHoleValue : σ → List UInt8 → Val → σ × Bool
+  writeHoleFmt : σ → List UInt8 → Val → Nat → σ × Bool
+  writeHoleLabel : σ → List UInt8 → σ × Bool
+
+/-- `Part::write` (:570-591). -/
+def Part.write {σ : Type} (w : Writer σ) (props : List (List UInt8 × Val)) (s : σ) : Part → σ × Bool
+  | .text t => w.writeText s t                                              -- (:572)
+  | .hole label fmt =>
+    match lookupFirst label props with                                      -- (:580)
+    | some value =>
+      match fmt with
+      | some f => w.writeHoleFmt s label value f                            -- (:582)
+      | none => w.writeHoleValue s label value                              -- (:584)
+    | none => w.writeHoleLabel s label                                      -- (:587)
+
+/-- `Render::write` (:312-318): part by part, `?` stops at the first error. -/
+def render {σ : Type} (w : Writer σ) (props : List (List UInt8 × Val)) : List Part → σ → σ × Bool
+  | [], s => (s, true)
+  | p :: ps, s =>
+    match p.write w props s with
+    | (s', true) => render w props ps s'
+    | (s', false) => (s', false)
+
+/-- The `Write` trait defaults (:340-371) over a `fmt::Write` whose `write_str` appends and never fails
+    (`impl Write for String {}` :393; the `fmt::Formatter` specialisation :395-403 writes the same bytes when the
+    outer formatter carries no flags, as in `to_string()`). -/
+def stringWriter (fmtTable : Nat → Val → List UInt8) : Writer (List UInt8) where
+  writeText s t := (s ++ t, true)                                           -- write_str(text)
+  writeHoleValue s _ v := (s ++ v.display, true)                            -- "{}", value
+  writeHoleFmt s _ v f := (s ++ fmtTable f v, true)                         -- "{}", formatter.apply(value)
+  writeHoleLabel s l := (s ++ [0x7b] ++ l ++ [0x7d], true)                  -- "{{{}}}", label
+
+/-- The callback a part triggers, as data. -/
+inductive Ev where
+  | text (t : List UInt8)
+  | holeValue (label : List UInt8) (v : Val)
+  | holeFmt (label : List UInt8) (v : Val) (f : Nat)
+  | holeLabel (label : List UInt8)
+  deriving Repr, DecidableEq
+
+/-- A writer that records its callbacks and fails (recording nothing) on callback number `failAt` (never, if `none`). -/
+def recWriter (failAt : Option Nat) : Writer (List Ev) where
+  writeText s t := if failAt = some s.length then (s, false) else (s ++ [.text t], true)
+  writeHoleValue s l v := if failAt = some s.length then (s, false) else (s ++ [.holeValue l v], true)
+  writeHoleFmt s l v f := if failAt = some s.length then (s, false) else (s ++ [.holeFmt l v f], true)
+  writeHoleLabel s l := if failAt = some s.length then (s, false) else (s ++ [.holeLabel l], true)
 
 end EmitModel.Template
